@@ -5,8 +5,9 @@ import os
 import random
 import re
 import sys
+import zlib
 
-from hypothesis import strategies as st
+from hypothesis import assume, strategies as st
 
 from pbt.core.api import CaseTimeout, Failure, Outcome, SubCheck
 from pbt.core import plrun
@@ -16,7 +17,7 @@ from pbt.ref import semantics as sem
 PROPERTY_ID = "C22"
 LEVEL = "exploration"
 
-N_SAMPLES = {"quick": 3000, "thorough": 30000}
+N_SAMPLES = {"quick": 2000, "thorough": 30000}
 DELTA = 1e-9
 MIN_EVIDENCE = 0.05
 MAX_CHOICES = 10
@@ -25,9 +26,12 @@ MAX_WORLDS = 1 << 12
 RULE = ("Case = (program AST from pbt.gen.programs.programs(allow_nonground_query=False, allow_neg_query=False): "
         "probabilistic facts, annotated disjunctions with/without bodies, probabilistic rules, rules, stratified "
         "negation, positive recursion, 1-3 ground queries, 0-2 evidence atoms; kept only when the reference "
-        "P(evidence) >= 0.05, <= 10 relevant choices and no undefined atoms; thinning: all non-trivial programs with P(evidence) < 1, 1/3 of the other "
-        "non-trivial ones, 1/12 of the trivial ones), "
-        "propagate_evidence in {False, True}, n = 3000 samples (quick) / 30000 (thorough), two integers passed to "
+        "P(evidence) >= 0.05, <= 10 relevant choices and no undefined atoms; for half of the programs the evidence atoms are "
+        "instead drawn among the ground atoms with reference marginal strictly between 0 and 1; thinning: all "
+        "non-trivial programs with P(evidence) < 1, 1/4 of the other non-trivial ones, 1/24 of the trivial ones), "
+        "propagate_evidence in {False, True}, n accepted samples with n = N * min(1, 2 P(evidence)) rounded down to a "
+        "multiple of 100, N = 2000 (quick) / 30000 (thorough) (the expected number of grounding attempts is then <= "
+        "2N), two integers passed to "
         "random.seed (sample loop / estimate).  The loop of tasks.sample.sample is replayed through its public pieces "
         "(init_engine, init_db, SampledFormula, FunctionStore, ground, verify_evidence, to_string(with_probability), "
         "to_dict) so that facts/groups of every accepted sample can be read; the first 200 outputs are compared with "
@@ -38,13 +42,13 @@ RULE = ("Case = (program AST from pbt.gen.programs.programs(allow_nonground_quer
         "(false) and over sampled AD instances of p_chosen, or 1 - sum(p of the examined heads) when no head was "
         "chosen; choices fixed by evidence propagation (propagate_evidence=True) are not choices made and contribute "
         "1; samples in which an AD instance has a head fixed FALSE by propagation are not checked for (b).  Per "
-        "program: |frequency - reference conditional probability| <= eps = sqrt(ln(2/1e-9)/(2n)) (0.0597 for n=3000, "
-        "0.0189 for n=30000) for every query, for the sample loop and for estimate(model, n); more than 4n/P(evidence)"
+        "program: |frequency - reference conditional probability| <= eps = sqrt(ln(2/1e-9)/(2n)) (0.0732 for n=2000, "
+        "0.0189 for n=30000, 0.23 for the smallest n=200 at P(evidence)=0.05 in the quick tier) for every query, for the sample loop and for estimate(model, n); more than 4n/P(evidence)"
         "+2000 grounding attempts for n accepted samples is reported as non-terminating rejection.  Non-trivial: >= 2 "
         "relevant choices and a query with reference conditional probability in (0.1, 0.9).  Distinct = distinct "
         "case.")
 ASSUMPTIONS = ["reference enumerator (pbt/ref/semantics.py) is the semantics",
-               "the statistical part only detects gross errors: a frequency may be off by up to eps (0.06 quick, 0.019 "
+               "the statistical part only detects gross errors: a frequency may be off by up to eps (0.07-0.23 quick, 0.019-0.06 "
                "thorough) without being noticed; false-alarm probability <= 1e-9 per query and run (Hoeffding)",
                "the replayed loop is the loop of tasks.sample.sample (cross-checked on the first 200 samples)",
                "sampled choices are mapped to program statements by database order: probabilistic fact nodes <-> "
@@ -93,17 +97,15 @@ def is_nontrivial(ref):
     return ref.n_choices >= 2 and any(0.1 < float(v) < 0.9 for v in ref.probs.values())
 
 
-def _keep(case):
-    ref = reference(case["prog"])
-    if isinstance(ref, str):
-        return False
-    # thinning (a deterministic function of the case): programs whose evidence really conditions the distribution
-    # are the interesting ones for rejection sampling and evidence propagation
+def _keep(prog, ref):
+    # thinning (a deterministic function of the program): programs whose evidence really conditions the
+    # distribution are the interesting ones for rejection sampling and evidence propagation
     if is_nontrivial(ref) and ref.evidence_weight < 1:
         return True
+    h = zlib.crc32(json.dumps(prog).encode("utf8"))
     if is_nontrivial(ref):
-        return case["seed"] % 3 == 0
-    return case["seed"] % 12 == 0
+        return h % 4 == 0
+    return h % 24 == 0
 
 
 class StatementMap(object):
@@ -181,7 +183,10 @@ def run_sampler(src, n, pe, seed, max_attempts):
         attempts += 1
         target = S.SampledFormula()
         for ev_fact in evidence:
-            target.add_atom(*ev_fact)
+            if hasattr(target, "add_evidence_atom"):  # repaired tree: fixed choices have their own entry point
+                target.add_evidence_atom(*ev_fact)
+            else:
+                target.add_atom(*ev_fact)
         engine.functions = S.FunctionStore(target=target, database=db, engine=engine)
         result = S.ground(engine, db, target=target)
         if S.verify_evidence(engine, db, ev_target, target):
@@ -468,15 +473,50 @@ def _show(d):
 
 # ------------------------------------------------------------------------------------------------ strategy
 
+@st.composite
+def _programs_with_informative_evidence(draw):
+    """programs() without evidence + 1-2 evidence atoms drawn among the ground atoms whose reference marginal is
+    strictly between 0 and 1 (programs() draws evidence atoms blindly: mostly certain or impossible)."""
+    prog = draw(gp.programs(allow_nonground_query=False, allow_neg_query=False, allow_evidence=False))
+    try:
+        g = sem.ground(prog)
+        cands = sorted(g.possible)
+        probe = [s for s in prog if s[0] != "query"] + \
+                [["query", [a[0], [[k[0], k[1]] for k in a[1]]], False] for a in cands]
+        ref0 = sem.evaluate(probe, max_choices=MAX_CHOICES + 2, max_worlds=MAX_WORLDS * 4)
+        good = [a for a in cands if 0 < ref0.probs[sem.atom_str(a)] < 1]
+    except (ValueError, sem.TooLarge):
+        good = []
+    if not good:
+        return prog
+    es = []
+    for _ in range(draw(st.integers(1, 2))):
+        a = draw(st.sampled_from(good))
+        es.append(["evidence", [a[0], [[k[0], k[1]] for k in a[1]]], draw(st.booleans()), draw(st.integers(0, 1))])
+    return prog + es
+
+
+def samples_for(tier, evidence_weight):
+    """Number of accepted samples: N(tier) when P(evidence) >= 0.5, otherwise N * 2 * P(evidence) (so that the
+    expected number of grounding attempts, n / P(evidence), stays <= 2N), rounded down to a multiple of 100."""
+    big = N_SAMPLES[tier]
+    n = int(big * min(1.0, 2.0 * float(evidence_weight)))
+    return max(100, n - n % 100)
+
+
+@st.composite
+def _cases(draw):
+    prog = draw(st.one_of(gp.programs(allow_nonground_query=False, allow_neg_query=False),
+                          _programs_with_informative_evidence()))
+    ref = reference(prog)
+    assume(not isinstance(ref, str))
+    assume(_keep(prog, ref))
+    return {"prog": prog, "pe": draw(st.booleans()), "seed": draw(st.integers(0, 2 ** 31 - 1)),
+            "seed_est": draw(st.integers(0, 2 ** 31 - 1)), "n": samples_for(_tier(), ref.evidence_weight)}
+
+
 def _strategy():
-    n = N_SAMPLES[_tier()]
-    return st.fixed_dictionaries({
-        "prog": gp.programs(allow_nonground_query=False, allow_neg_query=False),
-        "pe": st.booleans(),
-        "seed": st.integers(0, 2 ** 31 - 1),
-        "seed_est": st.integers(0, 2 ** 31 - 1),
-        "n": st.just(n),
-    }).filter(_keep)
+    return _cases()
 
 
 def render(case):
